@@ -236,6 +236,12 @@ type mutBind struct {
 	tmpl string            // for a mutated *etree.Element: template over the dereferenced element, yields res node
 	into map[string]string // for xmlUnmarshalElement: type of the target struct -> function (el, current value) -> option (res T)
 	upd  map[string]string // general form, see below
+	// key "M:<receiver type>.<method>": err (:)= X.M(.., &v, ..) — a method that writes through the pointer argument `&v` (v a
+	// local variable of Go type [target]) and returns an error.  [pair] is a template over (receiver, current value of v, the
+	// other arguments in order, of Go types [args]) and yields (new value of v * option err)
+	pair   string
+	target string
+	args   []string
 }
 
 // mutBind.upd (general form, also for methods: key "M:<receiver type>.<method>", mut = -1): pointee type of the mutated
@@ -788,6 +794,16 @@ func (x *xlat) analyse(body *ast.BlockStmt) {
 					mark(id, false)
 				}
 			}
+			if sel, ok := s.Fun.(*ast.SelectorExpr); ok {
+				// X.M(.., &v, ..) for a method name with a writing binding: v is assigned
+				for k, mb := range mutBinds {
+					if mb.pair != "" && strings.HasSuffix(k, "."+sel.Sel.Name) && mb.mut < len(s.Args) {
+						if u, ok := s.Args[mb.mut].(*ast.UnaryExpr); ok && u.Op == token.AND {
+							mark(u.X, false)
+						}
+					}
+				}
+			}
 		}
 		return true
 	})
@@ -1169,7 +1185,63 @@ func (x *xlat) binary(n *ast.BinaryExpr) ex {
 	return ex{}
 }
 
+// anonStruct: struct{ F1, F2 string; … }{F1: e1, …} — a value of an anonymous struct type all of whose fields are exported
+// strings is the association list field name -> value in DECLARATION order (fields the literal does not set hold "").  The
+// representation must be bound (opaqueTypes["struct{string}"]) by the unit that uses it.
+func (x *xlat) anonStruct(n *ast.CompositeLit, st *ast.StructType) ex {
+	if opaqueType("struct{string}") == "" {
+		unsup(n, "anonymous struct literal")
+	}
+	var names []string
+	declared := map[string]bool{}
+	for _, f := range st.Fields.List {
+		if typeStr(f.Type) != "string" || len(f.Names) == 0 || f.Tag != nil {
+			unsup(f, "anonymous struct with a field that is not a plain string")
+		}
+		for _, id := range f.Names {
+			if !id.IsExported() || declared[id.Name] {
+				unsup(f, "anonymous struct field %s", id.Name)
+			}
+			declared[id.Name] = true
+			names = append(names, id.Name)
+		}
+	}
+	vals := map[string]string{}
+	var pres []pre
+	for _, el := range n.Elts {
+		kv, ok := el.(*ast.KeyValueExpr)
+		if !ok {
+			unsup(n, "unkeyed composite literal")
+		}
+		k, ok := kv.Key.(*ast.Ident)
+		if !ok || !declared[k.Name] {
+			unsup(n, "anonymous struct literal key")
+		}
+		if _, dup := vals[k.Name]; dup {
+			unsup(n, "anonymous struct literal sets %s twice", k.Name)
+		}
+		v := x.expr(kv.Value)
+		if v.typ != "string" {
+			unsup(n, "anonymous struct field %s set to a value of type %s", k.Name, v.typ)
+		}
+		pres = append(pres, v.pres...)
+		vals[k.Name] = v.term
+	}
+	var items []string
+	for _, name := range names {
+		v, ok := vals[name]
+		if !ok {
+			v = `""`
+		}
+		items = append(items, "("+coqStr(name)+", "+v+")")
+	}
+	return ex{pres: pres, term: "[" + strings.Join(items, "; ") + "]", typ: "struct{string}"}
+}
+
 func (x *xlat) composite(n *ast.CompositeLit) ex {
+	if st, ok := n.Type.(*ast.StructType); ok {
+		return x.anonStruct(n, st)
+	}
 	return x.compositeOf(n, x.qualifyRoot(typeStr(n.Type)))
 }
 
@@ -1648,6 +1720,18 @@ func (x *xlat) externCall(n *ast.CallExpr) (ex, bool) {
 		}
 	}
 	if !found {
+		// F(..).M(..): method (bound by the receiver's type) of the result of another call
+		if sel, ok := n.Fun.(*ast.SelectorExpr); ok {
+			if rc, ok := sel.X.(*ast.CallExpr); ok && hasMethodBind(sel.Sel.Name) {
+				if r, ok := x.tryExpr(rc); ok {
+					if b, ok := callBinds["M:"+r.typ+"."+sel.Sel.Name]; ok {
+						cb, recv, found = b, &r, true
+					}
+				}
+			}
+		}
+	}
+	if !found {
 		return ex{}, false
 	}
 	if name != "" && strings.HasSuffix(name, ".Parent") && recv != nil {
@@ -1715,6 +1799,29 @@ func (x *xlat) externCall(n *ast.CallExpr) (ex, bool) {
 		term = q
 	}
 	return ex{pres: pres, term: term, typ: cb.typ, valPtr: cb.val}, true
+}
+
+// hasMethodBind: some callBinds entry binds a method of this name ("M:<type>.<name>")
+func hasMethodBind(name string) bool {
+	for k := range callBinds {
+		if strings.HasPrefix(k, "M:") && strings.HasSuffix(k, "."+name) {
+			return true
+		}
+	}
+	return false
+}
+
+// tryExpr: translate an expression; false when it is outside the subset
+func (x *xlat) tryExpr(e ast.Expr) (r ex, ok bool) {
+	defer func() {
+		if p := recover(); p != nil {
+			if _, isUnsup := p.(unsupported); !isUnsup {
+				panic(p)
+			}
+			ok = false
+		}
+	}()
+	return x.expr(e), true
 }
 
 // ---------- statements ----------
@@ -1809,7 +1916,7 @@ func (x *xlat) block(list []ast.Stmt, cur, out, loop []*varInfo, inLoop bool) st
 		} else {
 			t := x.qualifyRoot(typeStr(vs.Type))
 			v = ex{typ: t, term: zeroOf(n, t)}
-			if ct, ok := coqOf(t); ok && (v.term == "None" || v.term == "[]") {
+			if ct, ok := coqOfVar(&varInfo{typ: t}); ok && (v.term == "None" || v.term == "[]") { // coqOfVar: also `var err error`
 				v.term = "(" + v.term + " : " + ct + ")"
 			}
 		}
@@ -2268,6 +2375,13 @@ func (x *xlat) assign(n *ast.AssignStmt, cur []*varInfo, cont func([]*varInfo) s
 				}
 				if ps, ok := x.fnParams[id.Name]; ok && (id.Obj == nil || x.locals[id.Obj] == nil) && x.done[id.Name] != "" {
 					return x.closureCall(n, call, id.Name, ps, cur, cont, bindIdent)
+				}
+			}
+			if sel, ok := call.Fun.(*ast.SelectorExpr); ok {
+				if id, ok := sel.X.(*ast.Ident); ok && id.Obj != nil && x.locals[id.Obj] != nil {
+					if mb, ok := mutBinds["M:"+x.locals[id.Obj].typ+"."+sel.Sel.Name]; ok && mb.pair != "" {
+						return x.mutMethod(n, call, sel, mb, cur, cont, bindIdent)
+					}
 				}
 			}
 		}
@@ -2858,6 +2972,50 @@ func (x *xlat) checkLinear(id *ast.Ident) {
 	if uses != 1 {
 		unsup(id, "handle variable %s is used %d times (a reader is consumed by its use)", id.Name, uses)
 	}
+}
+
+// mutMethod: err (:)= X.M(.., &v, ..) for a method bound by the receiver's type that writes through `&v` (mutBind.pair)
+func (x *xlat) mutMethod(n *ast.AssignStmt, call *ast.CallExpr, sel *ast.SelectorExpr, mb mutBind, cur []*varInfo, cont func([]*varInfo) string,
+	bindIdent func(*ast.Ident, string, bool, []*varInfo) (*varInfo, []*varInfo)) string {
+	errID, ok := n.Lhs[0].(*ast.Ident)
+	if !ok || len(call.Args) != len(mb.args)+1 || mb.mut >= len(call.Args) {
+		unsup(n, "%s: form", exprString(call.Fun))
+	}
+	u, ok := call.Args[mb.mut].(*ast.UnaryExpr)
+	if !ok || u.Op != token.AND {
+		unsup(n, "%s: argument %d must be the address of a local variable", exprString(call.Fun), mb.mut)
+	}
+	tid, ok := u.X.(*ast.Ident)
+	if !ok || tid.Obj == nil || x.locals[tid.Obj] == nil || x.locals[tid.Obj].typ != mb.target || !x.mutable[tid.Obj] {
+		unsup(n, "%s: argument %d must be the address of a local variable of type %s", exprString(call.Fun), mb.mut, mb.target)
+	}
+	tv := x.locals[tid.Obj]
+	recv := x.expr(sel.X)
+	pres := append([]pre{}, recv.pres...)
+	rt := recv.term
+	if isPtr(recv.typ) && !recv.valPtr {
+		p := x.freshName("p")
+		pres = append(pres, pre{"opt", p, rt})
+		rt = p
+	}
+	parts := []interface{}{rt, tv.coq}
+	k := 0
+	for i, a := range call.Args {
+		if i == mb.mut {
+			continue
+		}
+		v := x.expr(a)
+		if v.typ != mb.args[k] {
+			unsup(n, "%s: argument %d of type %s, the binding needs %s", exprString(call.Fun), i, v.typ, mb.args[k])
+		}
+		k++
+		pres = append(pres, v.pres...)
+		parts = append(parts, v.term)
+	}
+	r := x.freshName("r")
+	ev, c := bindIdent(errID, "error", false, cur)
+	return wrapPres(pres, fmt.Sprintf("let %s := %s in let %s := (fst %s) in let %s := (snd %s) in %s",
+		r, fmt.Sprintf(mb.pair, parts...), tv.coq, r, ev.coq, r, cont(c)), "CPanic")
 }
 
 // findIterate: if err := etreeutils.NSFindIterate(START, NS, TAG, H); err != nil { ...return } [else ...]
